@@ -163,8 +163,10 @@ func vc07Closed(prevs [][]int, m uint32) bool {
 }
 
 // vc07Pairs lists all pairs (A,B) of causally closed subsets containing the root with A ∪ B = everything,
-// for every shape with at most maxUnion transactions, up to isomorphism and swapping.
-func vc07Pairs(maxUnion int) []vc07Pair {
+// for every shape with at most maxUnion transactions, up to isomorphism and swapping. Every pair is listed with the
+// differing transactions present before the connection; pairs with a union of at most queuedUpTo transactions are
+// listed a second time with the differing transactions created after the connection (queued for gossip).
+func vc07Pairs(maxUnion int, queuedUpTo int) []vc07Pair {
 	var out []vc07Pair
 	seen := map[string]bool{}
 	for n := 1; n <= maxUnion-1; n++ {
@@ -184,7 +186,7 @@ func vc07Pairs(maxUnion int) []vc07Pair {
 					}
 					seen[k] = true
 					out = append(out, vc07Pair{Shape: shape, A: a, B: b})
-					if a != b {
+					if a != b && n+1 <= queuedUpTo {
 						out = append(out, vc07Pair{Shape: shape, A: a, B: b, Queued: true})
 					}
 				}
@@ -566,15 +568,20 @@ func TestVerifC07Small(t *testing.T) {
 	}
 
 	r.Rule("initial pairs: every pair (A,B) of causally closed transaction sets over a shared root with A∪B = a DAG of at most maxUnion transactions " +
-		"(every shape whose prevs are antichains, up to isomorphism and swapping A/B), each once with the differing transactions present before the connection " +
-		"(empty gossip queues) and once created after it (queued for gossip). From each pair a breadth-first search over event histories of the two REAL protocol " +
+		"(every shape whose prevs are antichains, up to isomorphism and swapping A/B), each with the differing transactions present before the connection " +
+		"(empty gossip queues) and, up to the union size given under bounds, a second time with them created after it (queued for gossip). From each pair a breadth-first search over event histories of the two REAL protocol " +
 		"instances to quiescence: deliver(m) for any in-flight m, tick(node), expire(node) and, charged to a budget, drop(m), dup(m) (deliver and leave a copy in flight " +
 		"for arbitrarily late re-delivery), stale(m) (re-inject a response that was already answered). States are merged by canonical form (App. B.3). " +
 		"A pair is non-trivial when A != B.")
-	pairs := vc07Pairs(maxUnion)
+	queuedUpTo := 3
+	if r.Thorough() {
+		queuedUpTo = maxUnion
+	}
+	pairs := vc07Pairs(maxUnion, queuedUpTo)
+	r.Bound("queued_variant_up_to_union", queuedUpTo)
 	if os.Getenv("VERIF_C07_COUNTONLY") != "" {
 		for k := 2; k <= 6; k++ {
-			ps := vc07Pairs(k)
+			ps := vc07Pairs(k, k)
 			nt := 0
 			for _, p := range ps {
 				if p.A != p.B {
